@@ -355,7 +355,7 @@ fn main() {
 			name: "restart-sampled",
 			rule: "pair / line / diamond worlds, generated payment flows with async persistence; manager snapshots at generated persistence points; 1-2 crashes at generated positions (second possibly during recovery) restarting a generated node from a generated snapshot lag and durable-or-landed monitors; then reconnect, resolve payments, mine to full resolution. Checked: deserialization succeeds, monitor-ahead channels are closed as OutdatedChannelManager and not resumed, revocation rules hold across restarts, every broadcast is consensus-valid, PaymentSent is truthful and never contradicted, a claim acknowledged to the recipient reaches PaymentSent at the sender. Non-trivial: HTLCs pending at the crash and the manager lagged a monitor or an async write was lost",
 			quick_cases: 800,
-			thorough_cases: 60_000,
+			thorough_cases: 40_000,
 			max_shrink: 300,
 		},
 		|| strat(60),
@@ -366,7 +366,7 @@ fn main() {
 			name: "restart-crossing",
 			rule: "as restart-sampled, but the flow is built to crash inside concurrent updates: 1-3 non-dust payments fully committed, then claims and new sends started back to back with their messages still queued, then a generated tail of single-message deliveries / event handling / persistence completions; 1-2 crashes inside the tail with a manager snapshot lagging 0-6 snapshots. Non-trivial as in restart-sampled",
 			quick_cases: 1000,
-			thorough_cases: 50_000,
+			thorough_cases: 30_000,
 			max_shrink: 300,
 		},
 		crossing_strat,
@@ -377,7 +377,7 @@ fn main() {
 			name: "restart-mpp",
 			rule: "Line3Parallel world: a two-part payment over two channels from the same peer is claimed by a recipient whose persistence is asynchronous; generated tail of single write completions / message deliveries / further traffic; 1-2 crashes (mostly of the recipient) inside the tail with a manager snapshot lagging 0-4 snapshots and in-flight writes lost or landed. Same oracles as restart-sampled plus: a payment reported as claimed is collected in full (every non-dust part fulfilled by message or taken on chain with the preimage). Non-trivial as in restart-sampled",
 			quick_cases: 500,
-			thorough_cases: 25_000,
+			thorough_cases: 12_000,
 			max_shrink: 300,
 		},
 		mpp_strat,
